@@ -13,7 +13,11 @@
    LINE SEPARATOR, NEL are \s; every other non-ASCII character is neither).                      *)
 From FluentV Require Import Base.Sexp Base.Bytes Base.Outcome Base.Utf8 Pseudo.Pseudo.
 
-Definition word_na (c : N) : bool := byte_in c [233; 223; 1635; 20013]%N.
+(* second row: the "near letters" of props/C20.py (case-fold/compatibility relatives of ASCII letters, look-alikes, combining marks):
+   all of them are Alphabetic or Mark, hence \w for the regex crate *)
+Definition word_na (c : N) : bool :=
+  byte_in c [233; 223; 1635; 20013]%N ||
+  byte_in c [170; 181; 186; 230; 304; 305; 339; 383; 768; 769; 913; 1072; 1077; 7838; 8486; 8490; 8491; 8560; 9424; 64257; 65313; 65345; 65370; 119808; 119834]%N.
 Definition space_na (c : N) : bool := byte_in c [160; 12288; 8232; 133]%N.
 
 Definition enc_span (p : nat * nat) : sexp := L [snat (fst p); snat (snd p)].
